@@ -284,6 +284,11 @@ theorem dec_uvarintDesc (v : Nat) (hv : v < 2 ^ 64) (r : Bytes) :
     have : 256 ^ uwidth v - 1 - (256 ^ uwidth v - 1 - v) = v := by omega
     rw [this, Nat.mod_eq_of_lt hb]
 
+theorem wrap64_id (x : Int) (hl : -(2 ^ 63) ≤ x) (hu : x < 2 ^ 63) : wrap64 x = x := by
+  unfold wrap64
+  rw [Int.emod_eq_of_lt (by omega) (by omega)]
+  omega
+
 theorem dec_varintAsc (v : Int) (hl : -(2 ^ 63) ≤ v) (hu : v < 2 ^ 63) (r : Bytes) :
     decVarintAsc (varintAsc v ++ r) = some (v, r) := by
   unfold varintAsc
@@ -303,11 +308,12 @@ theorem dec_varintAsc (v : Int) (hl : -(2 ^ 63) ≤ v) (hu : v < 2 ^ 63) (r : By
     rw [res.1]
     have hlt : 256 ^ nwidth v - 1 - (v + 256 ^ nwidth v).toNat < 256 ^ nwidth v := by omega
     rw [Nat.mod_eq_of_lt hlt]
-    congr 2
-    unfold inot
-    have h2 := res.2
-    have hc : ((256 ^ nwidth v : Nat) : Int) = (256 : Int) ^ nwidth v := by simp
-    omega
+    have hinner : inot ((256 ^ nwidth v - 1 - (v + 256 ^ nwidth v).toNat : Nat) : Int) = v := by
+      unfold inot
+      have h2 := res.2
+      have hc : ((256 ^ nwidth v : Nat) : Int) = (256 : Int) ^ nwidth v := by simp
+      omega
+    rw [hinner, wrap64_id v hl hu]
   · simp only [h0, if_false]
     have hv : v.toNat < 2 ^ 64 := by omega
     have hdec := dec_uvarintAsc v.toNat hv r
